@@ -325,6 +325,20 @@ edit("zk-tls-key-unreadable", "start-time", False, ["notify"],
       ("s", "tls.tz.keyfile", "@/missing.pem")],
      "core/internal/helpers/zookeeper.go:80-86; core/internal/zookeeper/coordinator.go:85-89", "zookeeper TLS key file cannot be read")
 
+# zookeeper.root-path other than "/": the coordinator's Start has to create it on the ensemble; nothing listens on the
+# catalogue's addresses, so Start returns the error (start-time failure: Start returns 1, ConfigurationValid stays true)
+edit("zk-root-default", "start-time", False, ["notify"], [("del", "zookeeper.root-path")],
+     "core/internal/zookeeper/coordinator.go:57,92-96,118-139", "no root-path: the default /burrow must be created on the unreachable ensemble")
+edit("zk-root-nested", "start-time", False, ["notify"], [("s", "zookeeper.root-path", "/burrow/a.b_c-d")],
+     "core/internal/zookeeper/coordinator.go:92-96,118-139", "a well-formed nested root path must be created on the unreachable ensemble")
+edit("notifier-table-empty-with-zk", "start-time", False, ["core", "kafka"],
+     [("t", "notifier"), ("l", "zookeeper.servers", ["127.0.0.1:1"])],
+     "core/burrow.go:42-55; core/internal/zookeeper/coordinator.go:92-96",
+     "an empty [notifier] table with zookeeper servers: zookeeper and notifier coordinators exist, default root path")
+edit("notifier-table-empty-with-zk-root", "preserving", False, ["core", "kafka"],
+     [("t", "notifier"), ("l", "zookeeper.servers", ["[::1]:1"]), ("s", "zookeeper.root-path", "/")],
+     "core/burrow.go:42-55", "an empty [notifier] table with zookeeper servers and root path /: everything starts")
+
 # storage -------------------------------------------------------------------------------------------------------
 edit("storage-two-modules", "module-count", True, ["core", "notify", "kafka"],
      [("s", "storage.s1.class-name", "inmemory"), ("s", "storage.s2.class-name", "inmemory")],
